@@ -186,6 +186,8 @@ var seedExpectations = []seedExpect{
 	{"deref-compound-noload", "C08", "deref.loadrule", "lowerAssign"},
 	{"inline-local-noreinit", "C13", "inline.localreinit", "inlineOneCall"},
 	{"dce-no-remark", "C13", "unmark.remarked", "dce.Run"},
+	{"unknown-name-default", "C11", "name.silentdefault", "Lowerer.builtin"},
+	{"unknown-name-default", "C17", "name.silentdefault", "Lowerer.addressSpace"},
 	{"mem2reg-revoke-in-walk", "C13", "commit.revoke", "walkBlock"},
 	{"mem2reg-loop-unaware", "C13", "promote.loopaware", "promoteBlocks"},
 	{"sroa-store-not-split", "C13", "classify.rewritten", "classifyStmts:StmtStore"},
